@@ -13,9 +13,20 @@ import (
 // `<args...> <shard> <n>` and collects each worker's stdout (one JSON
 // document). Used by the enumeration engines (HANDLER, SCHED, API).
 func RunShards(args []string, n int) ([][]byte, error) {
+	return RunShardsPool(args, n, 0)
+}
+
+// RunShardsPool runs n shards with at most parallel of them at a time
+// (0: all at once). More, smaller shards bound the memory of each worker
+// process: executions under the race detector do not give their memory back.
+func RunShardsPool(args []string, n, parallel int) ([][]byte, error) {
 	if n <= 0 {
 		n = runtime.NumCPU()
 	}
+	if parallel <= 0 || parallel > n {
+		parallel = n
+	}
+	sem := make(chan struct{}, parallel)
 	self, err := os.Executable()
 	if err != nil {
 		return nil, err
@@ -27,6 +38,8 @@ func RunShards(args []string, n int) ([][]byte, error) {
 		wg.Add(1)
 		go func(i int) {
 			defer wg.Done()
+			sem <- struct{}{}
+			defer func() { <-sem }()
 			a := append(append([]string{}, args...), fmt.Sprint(i), fmt.Sprint(n))
 			cmd := exec.Command(self, a...)
 			cmd.Env = append(os.Environ(), "GOMAXPROCS=1", "GOGC=400")
